@@ -76,6 +76,13 @@ CLAIMED = {
     note="Trusted: collision resistance of SHAKE256 / SHA-2 / SHAKE128 (a different M' gives a different mu), hash model (update absorbs exactly its argument), abstract interpreter soundness. That verification then fails is the hash argument, not analysed.",
     technique="abstract interpretation with symbolic hash absorb lists (value numbering of absorbed items) compared against the FIPS 204 layout",
     engine="driver-ai"),
+ "C03": dict(
+    category="other",
+    text="Clauses of 'the signature is the FIPS 204 Sign output for the drawn rnd', each decided for every key, message, context <= 255 and generator output from one abstract run per signing entry point (pure + 3 pre-hash functions): S1 exactly one 32-byte generator request fills rnd and nothing unmodelled is called (no other input); S2 M' is formatted as Alg. 2/4 (C06 rules R1-R3 on the sign side: domain byte, exact length byte, whole ctx, FIPS OIDs, digest lengths); S3 mu = H(tr|M',64), rho'' = H(K|rnd|mu,64) with K the key field other than rho and rnd the generator bytes; S4 the signing loop is peeled three times: ExpandMask instance r of iteration n absorbs rho''|IntegerToBytes(n*l+r,2), and the loop invariant carries kappa = 0 (mod l): every path back to the loop head adds exactly l; S5 c~ = first lambda/4 bytes of H(mu|w1Encode(w1)), SampleInBall absorbs all of c~; S6 the path condition at the sigEncode call bounds ||z||, ||r0||, ||ct0|| and the hint weight by exactly the Alg. 7 thresholds; S7 A-hat = ExpandA(sk.rho) with FIPS index bytes and order; S8 Decompose/HighBits/LowBits, MakeHint, mod+- equal their FIPS definitions on the whole domain (C15 engine). The polynomial arithmetic between the hashes (NTT, products) is not decided, so byte-identity itself is not established.",
+    design_ref="DESIGN.md §4 C03",
+    note="Level 'other': necessary structural clauses, not the byte-for-byte equality. Quick = ML-DSA-44 and -65 (K != L is needed to separate kappa += l from += k), thorough = all three. Trusted: abstract interpreter soundness, hash model.",
+    technique="abstract interpretation over monomorphic MIR: symbolic hash absorb lists, generator probes, loop peeling + congruence invariants, path facts on tracked call results; piecewise-affine kernel exactness",
+    engine="driver-ai"),
  "C08": dict(
     category="other",
     text="Clauses decided statically. R1: HintBitUnpack run on 78 (x3 sets) abstract input classes generated from (k, omega) - count above omega, count below the running index (every polynomial, two prefix shapes and the boundary member), non-increasing / repeated positions, non-zero unused bytes, each at first/middle/last position - every member of an error class is definitely rejected, every member of a canonical class definitely accepted. R2: encoder and decoder of sig/pk/sk use identical byte ranges that tile [0, LEN) and equal the FIPS 204 layout. R3: BitUnpack accepts exactly [-a, b] for every (a, b) in use (total when a+b+1 is a power of two). Not decided: re-encode identity for every accepted byte string and the bit-level bijection.",
@@ -120,7 +127,7 @@ man = {
  "engines": [
    {"name": "cfg-matrix", "path": "checks/c17.py", "serves_properties": ["C17"], "kind_free_text": "feature-configuration matrix: rustc lints + MIR fingerprints"},
    {"name": "driver-facts", "path": "driver/src/facts.rs", "serves_properties": ["C16", "C17"], "kind_free_text": "type/layout/drop-glue/call-graph facts"},
-   {"name": "driver-ai", "path": "driver/src/ai/", "serves_properties": ["C02", "C06", "C07", "C08", "C10", "C12", "C13", "C14", "C15", "C18"], "kind_free_text": "abstract interpreter over monomorphic MIR"},
+   {"name": "driver-ai", "path": "driver/src/ai/", "serves_properties": ["C02", "C03", "C06", "C07", "C08", "C10", "C12", "C13", "C14", "C15", "C18"], "kind_free_text": "abstract interpreter over monomorphic MIR"},
    {"name": "driver", "path": "driver/", "serves_properties": sorted(CLAIMED), "kind_free_text": "rustc_private driver over type-checked monomorphic MIR (facts, call graph, abstract interpretation)"},
  ],
  "checks": checks,
